@@ -45,3 +45,26 @@ func calendarSelfTest(c *fw.Ctx, y0, y1 int) {
 	}
 	c.Count("calendar_selftest_days", int64(n-sm.DayNumber(sm.Date{Y: y0, M: 1, D: 1})))
 }
+
+func tryRun(f func()) (bool, any, string) { return fw.Try(f) }
+
+// span is a half-open index range of one family, the unit of work distribution.
+type span struct {
+	fam    int
+	lo, hi int
+}
+
+// planSpans cuts each family (given by its size) into chunks of at most `chunk` cases.
+func planSpans(sizes []int, chunk int) []span {
+	var out []span
+	for f, n := range sizes {
+		for lo := 0; lo < n; lo += chunk {
+			hi := lo + chunk
+			if hi > n {
+				hi = n
+			}
+			out = append(out, span{f, lo, hi})
+		}
+	}
+	return out
+}
